@@ -16,7 +16,7 @@ pub fn run(ctx: &mut Ctx) {
         let mut rng = ctx.rng(case);
         let file = rng.chance(1, 5);
         let backend = if file { Backend::File } else { Backend::Memory };
-        let (mut store, path) = new_store(backend, &scratch);
+        let (mut store, mut path) = new_store(backend, &scratch);
         let docs = [namespace(1), namespace(2)];
         // each document starts read-only or writable; capabilities are imported again later
         let mut writable = [rng.chance(1, 2), rng.chance(1, 2)];
@@ -94,8 +94,34 @@ pub fn run(ctx: &mut Ctx) {
             } else if file && rng.chance(1, 10) {
                 store.flush().unwrap();
                 drop(store);
-                store = Store::persistent(path.as_ref().unwrap()).expect("reopen");
-                trace.push("reopen".to_string());
+                if rng.chance(1, 3) {
+                    // the same rows in a file of the on-disk format of iroh-docs 0.94..=0.98, which the
+                    // open converts: the upgrade is a reopen like any other for the user
+                    let old = scratch.path(&format!("c17-old-{case}-{step}.redb"));
+                    match crate::oldfile::write_old_format(path.as_ref().unwrap(), &old, Default::default()) {
+                        Ok(c) => ctx.count("peer_rows_in_old_format_files", c.peers as u64),
+                        Err(e) => {
+                            ctx.harness_error(format!("writing an old-format file failed: {e:?}"));
+                            return;
+                        }
+                    }
+                    if !crate::oldfile::is_refused_by_current_redb(&old) {
+                        ctx.harness_error("the old-format file is not refused by the current redb");
+                        return;
+                    }
+                    path = Some(old);
+                    trace.push("reopen as old-format file".to_string());
+                    ctx.count("reopens_of_old_format_files", 1);
+                } else {
+                    trace.push("reopen".to_string());
+                }
+                store = match Store::persistent(path.as_ref().unwrap()) {
+                    Ok(s) => s,
+                    Err(e) => {
+                        ctx.violation(case, "reopen-failed", json!({"err": format!("{e:?}"), "trace": trace}));
+                        return;
+                    }
+                };
                 ctx.count("reopens", 1);
             } else {
                 let d = rng.below(2);
@@ -133,6 +159,8 @@ pub fn run(ctx: &mut Ctx) {
                         "more-than-five-peers"
                     } else if got.len() != got.iter().collect::<std::collections::BTreeSet<_>>().len() {
                         "duplicate-peer"
+                    } else if trace.last().map(|s| s == "reopen as old-format file").unwrap_or(false) {
+                        "list-changed-by-reopen-of-old-format-file"
                     } else if trace.last().map(|s| s == "reopen").unwrap_or(false) {
                         "list-changed-by-reopen"
                     } else if got.iter().collect::<std::collections::BTreeSet<_>>() == model[d].iter().collect::<std::collections::BTreeSet<_>>() {
